@@ -542,3 +542,85 @@ def run_S6(chk, rule="S6", prefixes=("yastn.tensor", "yastn.initialize", "yastn.
                         f"(Z2xU1, U1xU1, ...) it mixes the charges of two legs; for one-component symmetries it is indistinguishable")
     chk.require(n >= floor, f"{rule}: only {n} width-nsym slices found ({floor} confirmed by hand)")
     return n
+
+
+# ------------------------------------------------ WH: ordering key per `which`
+def _key_normal_form(e):
+    """(sign, kind) of an ordering key built from a spectrum by negation / abs / .real; kind in {'abs', 'id'}; None if not of that form"""
+    if isinstance(e, ast.UnaryOp) and isinstance(e.op, ast.USub):
+        r = _key_normal_form(e.operand)
+        return None if r is None else (-r[0], r[1])
+    if isinstance(e, ast.Call) and A.call_name(e) in ("abs", "np.abs", "numpy.abs") and len(e.args) == 1:
+        r = _key_normal_form(e.args[0])
+        return None if r is None else (1, "abs")
+    if isinstance(e, ast.Call) and isinstance(e.func, ast.Attribute) and e.func.attr in ("__abs__",) and not e.args:
+        r = _key_normal_form(e.func.value)
+        return None if r is None else (1, "abs")
+    if isinstance(e, ast.Attribute) and e.attr in ("real",):
+        return _key_normal_form(e.value)
+    if isinstance(e, ast.Name):
+        return (1, "id")
+    return None
+
+
+WHICH_PRIORITY = {"LM": (1, "abs"), "SM": (-1, "abs"), "LR": (1, "id"), "SR": (-1, "id")}     # the values to keep / list first are the largest of this key
+
+
+def run_WH(chk, rule):
+    """`which` in {'LM','SM','LR','SR'} (largest/smallest magnitude/real part): the key whose *largest* values are kept by the truncation
+    (eigh_with_truncation) and listed first by the backend (eigs_which sorts ascending, so its key is the negative) is |S|, -|S|, S, -S.
+    Evaluated per value of `which` on the CFG specialised on it; the key is normalised through negations and abs (|-x| = |x|)."""
+    from ..core.knob import KnobEval
+    prog = chk.prog
+    f = prog.func(LIN, "eigh_with_truncation")
+    calls = [c for c in A.calls(f.node) if A.call_name(c) == "truncation_mask" and c.args]
+    chk.require(calls, "eigh_with_truncation: call of truncation_mask not found")
+    par = A.enclosing_map(f.node)
+    st = A.stmt_of(calls[0], par)
+    for w, want in WHICH_PRIORITY.items():
+        ke = KnobEval(f.node, {"which": w})
+        e = ke.expand(calls[0].args[0], st)
+        got = _key_normal_form(e)
+        chk.verdict(rule, (f, calls[0]), f"eigh_with_truncation(which='{w}'): mask computed for `{A.short(e, 40)}`", True if got == want else False,
+                    f"eigh_with_truncation: with which='{w}' the truncation keeps the largest values of `{A.short(e, 50)}` (normal form {got}); it must keep the "
+                    f"{'largest' if want[0] > 0 else 'smallest'} {'magnitudes' if want[1] == 'abs' else 'values'}, i.e. the largest of "
+                    f"{'-' if want[0] < 0 else ''}{'|S|' if want[1] == 'abs' else 'S'}")
+    g = prog.func("yastn.backend.backend_np", "eigs_which")
+    for w, want in WHICH_PRIORITY.items():
+        ke = KnobEval(g.node, {g.params[1]: w})
+        rets = [r for r in A.returns_of(g.node) if r.value is not None and ke.is_live(r)]
+        # with the if-chain specialised, the first live return on the path is the one taken
+        rets = sorted(rets, key=lambda r: r.lineno)[:1]
+        ok, got, e = False, None, None
+        if rets:
+            e = ke.expand(rets[0].value, rets[0])
+            # table form: {'LM': k1, ...}.get(which, default) / {...}[which]
+            wname = g.params[1]
+
+            class Sel(ast.NodeTransformer):
+                def visit_Call(self, c):
+                    self.generic_visit(c)
+                    if isinstance(c.func, ast.Attribute) and c.func.attr == "get" and isinstance(c.func.value, ast.Dict) and c.args \
+                            and isinstance(c.args[0], ast.Name) and c.args[0].id == wname:
+                        for k_, v_ in zip(c.func.value.keys, c.func.value.values):
+                            if isinstance(k_, ast.Constant) and k_.value == w:
+                                return v_
+                        return c.args[1] if len(c.args) > 1 else ast.Constant(value=None)
+                    return c
+
+                def visit_Subscript(self, n):
+                    self.generic_visit(n)
+                    if isinstance(n.value, ast.Dict) and isinstance(n.slice, ast.Name) and n.slice.id == wname:
+                        for k_, v_ in zip(n.value.keys, n.value.values):
+                            if isinstance(k_, ast.Constant) and k_.value == w:
+                                return v_
+                    return n
+            e = Sel().visit(e)
+            if isinstance(e, ast.Call) and isinstance(e.func, ast.Attribute) and e.func.attr == "argsort" and not e.args:
+                got = _key_normal_form(e.func.value)
+                ok = got is not None and (-got[0], got[1]) == want
+        chk.verdict(rule, (g, rets[0] if rets else g.node), f"eigs_which(which='{w}') sorts ascending by `{A.short(e.func.value, 40) if ok or (e is not None and isinstance(e, ast.Call) and isinstance(e.func, ast.Attribute)) else '?'}`",
+                    True if ok else False,
+                    f"backend eigs_which: for which='{w}' the ascending sort key has normal form {got}; listing the "
+                    f"{'largest' if want[0] > 0 else 'smallest'} {'magnitudes' if want[1] == 'abs' else 'real parts'} first needs the key "
+                    f"{'-' if want[0] > 0 else ''}{'|val|' if want[1] == 'abs' else 'val.real'} (a missing case falls through to another ordering)")
